@@ -628,7 +628,18 @@ class SimPopen:
         return self.poll()
 
     def terminate(self):
-        pass
+        """SIGTERM: the process dies where it stands, no finally block runs.  Its thread stays parked for
+        the rest of the run (the whole run is a private child process)."""
+        t = self.task
+        if t.done or t is self.k.current:
+            return
+        self.k.switch(f"{t.role}.terminate", sync=True)
+        if not t.done:
+            t.done = True
+            t.pred = None
+            t.killed = True
+            self.returncode = -15
+            self.k.fault("process-terminated")
 
     kill = terminate
 
